@@ -26,6 +26,26 @@ CLAIMED["C08"] = dict(
     note=TRUST + "window theorems assume each inserted number within 32767 of the newest (the property's bound).",
     design="§8 C08", technique="Lean 4 proof (omega ring arithmetic, testBit refinement to a set) + differential correspondence")
 
+CLAIMED["C17"] = dict(
+    text="Lean theorems for EVERY root, file name and absolute cwd: path_join_safe returns ValueError or a normalised path that "
+         "is the root or beneath it (C17_contained, C17_components, C17_every_name), the only error is ValueError, a leading "
+         "separator or a '.'/'..' segment is refused; the model mirrors posixpath.join/normpath/abspath line by line and is tied "
+         "to the real functions by differential runs (adversarial segment alphabet, unicode, router captures, several cwds).",
+    note=TRUST + "POSIX semantics only (ntpath not modelled); containment is lexical (symlinks outside the property); "
+         "os.getcwd() absolute; posix._path_normpath (C) is tied by the differential to the pure-Python reference the model follows.",
+    design="§8 C17", technique="Lean 4 proof (normpath loop invariants, containment) + differential correspondence")
+
+CLAIMED["C01"] = dict(
+    text="Lean theorems about the model of _recv_datagram / Packet.from_bytes for EVERY datagram, header, state, AEAD and handshake "
+         "role: a datagram that does not decode is a no-op but for stats.dropped; with a key, decoding requires exact length and a "
+         "successful AEAD open of bytes 20.. with nonce = bytes 0..11 and AAD = bytes 0..19 (no packet type bypasses it); without a "
+         "key only the single expected hello with valid CRC is processed. Model tied to connection.py by two-party differential "
+         "histories with an attacker stream (forged plaintext of every type/count, bit flips, truncations, extensions, header "
+         "rewrites, other-key ciphertext, random bytes) towards keyed and unkeyed endpoints; monitor compares full state snapshots.",
+    note=TRUST + "INT-CTXT of AES-GCM assumed outside Lean; the driver uses a toy MAC as AEAD instance (theorems quantify over any AEAD); "
+         "history-level non-interference is a corollary argument (dropped is write-only), stated in DESIGN, not yet a Lean theorem.",
+    design="§8 C01", technique="Lean 4 proof (per-step full-state equality) + differential correspondence with attacker stream")
+
 REASON_PENDING = "model and theorems for this property are not built yet in this revision (planned, see DESIGN.md §13); not claimed until its check exists"
 
 def main():
